@@ -22,6 +22,9 @@ EXPLANATION = (
     'only to the two primitives consistently with `local`. C15.6: chunk_cache_size flows only into maxsize, preload '
     'only into the loader\'s `if preload`, multithreading only into the choice between two decode paths whose results '
     'have the same symbolic shape.')
+EXPLANATION += (
+    ' C15.1 also covers every `self.M[K] = V` outside construction, whatever guards it: V may depend on no argument of the storing function that is not part of K, and may not be chosen by whether another lazily filled attribute has been loaded yet (`self.X is None`).'
+)
 ASSUMPTIONS = [
     'functools.lru_cache keys on all call arguments (including self, by identity when __eq__/__hash__ are not defined)',
     'single-threaded use of one reader (concurrent use is not in the statement)',
